@@ -2,7 +2,7 @@
    This file holds only the property theorems; each is closed by an exact lemma and
    followed by Print Assumptions. *)
 From Coq Require Import ZArith List Bool.
-From FV Require Import Lib.Hex C20.Model C20.Proofs.
+From FV Require Import Generated.NodeID Lib.Hex C20.Model C20.Proofs C20.Source.
 Import ListNotations.
 Open Scope Z_scope.
 
@@ -37,6 +37,36 @@ Theorem c20_injective : forall s1 i1 s2 i2,
   make_node s1 i1 = make_node s2 i2 -> s1 = s2 /\ i1 = i2.
 Proof. exact make_injective. Qed.
 Print Assumptions c20_injective.
+
+(* The same statements about the Gallina definitions that tools/gofunc regenerates from
+   nodeid.go on every run (Generated/NodeID.v): if MakeNodeID, Service, Instance or
+   IsTypeBackend change in the source, these are the obligations that are re-checked. *)
+Theorem c20_src_unpack : forall s i, 0 <= s < 256 /\ 0 <= i < 65536 ->
+  go_NodeID_Service (go_MakeNodeID s i) = s /\ go_NodeID_Instance (go_MakeNodeID s i) = i.
+Proof. exact src_unpack. Qed.
+Print Assumptions c20_src_unpack.
+
+Theorem c20_src_backend : forall s i, 0 <= s < 256 /\ 0 <= i < 65536 ->
+  go_NodeID_IsTypeBackend (go_MakeNodeID s i) = true.
+Proof. exact src_is_backend. Qed.
+Print Assumptions c20_src_backend.
+
+Theorem c20_src_injective : forall s1 i1 s2 i2,
+  0 <= s1 < 256 /\ 0 <= i1 < 65536 -> 0 <= s2 < 256 /\ 0 <= i2 < 65536 ->
+  go_MakeNodeID s1 i1 = go_MakeNodeID s2 i2 -> s1 = s2 /\ i1 = i2.
+Proof. exact src_injective. Qed.
+Print Assumptions c20_src_injective.
+
+(* the hand-written model used by the print/parse theorems is the translated source *)
+Theorem c20_src_is_model : forall s i, 0 <= s < 256 /\ 0 <= i < 65536 ->
+  go_MakeNodeID s i = make_node s i /\
+  go_NodeID_Service (make_node s i) = service (make_node s i) /\
+  go_NodeID_Instance (make_node s i) = instance (make_node s i) /\
+  go_NodeID_IsTypeBackend (make_node s i) = is_backend (make_node s i).
+Proof.
+  intros s i H. repeat split; [exact (src_make s i H) | exact (src_backend _ (make_node_range s i H))].
+Qed.
+Print Assumptions c20_src_is_model.
 
 (* non-vacuity: the hypotheses are met by a non-trivial pair, and the model computes *)
 Example c20_example :
